@@ -38,7 +38,8 @@ def _capture():
         return
     for name in ('stat', 'lstat', 'listdir', 'scandir', 'mkdir', 'rmdir', 'remove', 'unlink', 'rename',
                  'replace', 'link', 'symlink', 'readlink', 'chmod', 'utime', 'open', 'fdopen', 'close',
-                 'fstat', 'getpid', 'access', 'read', 'write', 'makedirs'):
+                 'fstat', 'getpid', 'access', 'read', 'write', 'makedirs', 'fchmod', 'fsync', 'fdatasync', 'ftruncate',
+                 'lseek', 'truncate'):
         _REAL['os.' + name] = getattr(os, name)
     _REAL['builtins.open'] = builtins.open
     _REAL['io.open'] = io.open
@@ -154,6 +155,27 @@ class World(object):
                 return fs.fstat(fd)
             return R['os.fstat'](fd)
 
+        def fdop(name, simfn):
+            real = R['os.' + name]
+
+            def f(fd, *a, **kw):
+                if isinstance(fd, int) and fd >= FD_BASE:
+                    return simfn(fd, *a, **kw)
+                return real(fd, *a, **kw)
+            f.__name__ = name
+            return f
+
+        def os_truncate(path, length):
+            if isinstance(path, int):
+                return os.ftruncate(path, length)
+            if sim(path):
+                fd = fs.os_open(path, os.O_WRONLY)
+                try:
+                    return fs.fd_truncate(fd, length)
+                finally:
+                    fs.fd_close(fd)
+            return R['os.truncate'](path, length)
+
         def os_read(fd, n):
             if isinstance(fd, int) and fd >= FD_BASE:
                 return fs.fd_read(fd, n)
@@ -242,6 +264,12 @@ class World(object):
         P(os, 'read', os_read)
         P(os, 'write', os_write)
         P(os, 'fdopen', os_fdopen)
+        P(os, 'fchmod', fdop('fchmod', fs.fd_chmod))
+        P(os, 'fsync', fdop('fsync', fs.fd_sync))
+        P(os, 'fdatasync', fdop('fdatasync', fs.fd_sync))
+        P(os, 'ftruncate', fdop('ftruncate', fs.fd_truncate))
+        P(os, 'lseek', fdop('lseek', fs.fd_seek))
+        P(os, 'truncate', os_truncate)
         P(os, 'getpid', os_getpid)
         P(builtins, 'open', py_open)
         P(io, 'open', py_open)
